@@ -12,18 +12,19 @@ package c03
 //     IEEEP1363Encode, IEEEP1363Decode, IEEEP1363DecodeWithCurve} are compared two-sidedly with
 //     the strict DER / P1363 reference of package sigref.
 //
-// Documented contracts the decode oracles follow (never more than that):
+// What the decode oracles assert (C03's text and nothing beyond it):
 //
-//   - ASN1Decode: "make sure that the input follows strict DER encoding" (parse, re-encode,
-//     compare).  It has no curve and documents no range check, and a DER INTEGER is signed: the
-//     oracle is "b is the strict DER encoding of SEQUENCE{INTEGER, INTEGER}" with SIGNED integers
-//     and the same two values.  sigref.ParseDER (non-negative integers only) must agree on every
-//     input whose integers are non-negative; negative results are counted separately.
-//   - IEEEP1363DecodeWithCurve: exactly 2*size bytes of the named curve.
+//   - DER (ASN1Decode, DecodeECDSASignature("DER")): bytes that are not the strict DER encoding of
+//     SEQUENCE{INTEGER, INTEGER} (non-canonical, trailing data, garbage) are rejected; the canonical
+//     encoding of non-negative integers is accepted with the same two values and re-encodes to the
+//     same bytes.  Strict DER with a NEGATIVE integer (a DER INTEGER is signed; the code documents
+//     no range check): no decision demanded; if accepted, the values are the signed reference's.
+//   - IEEEP1363DecodeWithCurve: exactly 2*size bytes of the named curve (wrong-length fixed-size
+//     signatures are rejected), split in the middle.
 //   - IEEEP1363Decode / DecodeECDSASignature("IEEE_P1363") have no curve ("the caller should
-//     validate the size of the encoded bytes w.r.t. the curve size"): the code accepts exactly
-//     the widths of the three supported curves (64, 96, 132) and splits in the middle; the oracle
-//     is "the strict reference accepts the bytes for one of the supported curves".
+//     validate the size of the encoded bytes w.r.t. the curve size"): which lengths they take is
+//     counted, not asserted; what they accept must be the two halves of the input.
+//   - unsupported encoding / curve names and values too wide for IEEEP1363Encode: no panic; counted.
 
 import (
 	"bytes"
@@ -597,26 +598,46 @@ func decodeAll(t *rapid.T, ctx string, k cand, st *encStats) {
 			fail("harness: sigref.ParseDER(%x) (negative integers complemented) gives err=%v r=%v s=%v, want r=%v s=%v", flipped, ferr, fr, fs, or, os)
 		}
 	}
+	// C03 lists what must be REJECTED (non-canonical and trailing-data DER) and, through "Sign's output
+	// verifies", that the canonical encoding of non-negative integers is read back.  A strict DER
+	// encoding with a NEGATIVE integer is neither: no decision is demanded for it, only "no panic, and
+	// if it is accepted, the values are the reference's" (counted per decoder).
+	neg := wantDER && (wr.Sign() < 0 || ws.Sign() < 0)
+	derDecision := func(name string, err error, r, s *big.Int) {
+		switch {
+		case !wantDER && err == nil:
+			fail("%s accepts bytes that are not the strict DER encoding of SEQUENCE{INTEGER, INTEGER} (sigref.ParseDER err=%v); it returns r=%v s=%v", name, perr, r, s)
+		case wantDER && !neg && err != nil:
+			fail("%s err=%v for the canonical DER encoding of r=%v s=%v", name, err, wr, ws)
+		}
+		if err == nil && !sameRS(r, s, wr, ws) {
+			fail("%s gives r=%v s=%v, reference r=%v s=%v", name, r, s, wr, ws)
+		}
+		if neg {
+			if err == nil {
+				evid.Add("der_negative_integer/"+name+"/accepted_same_values", 1)
+			} else {
+				evid.Add("der_negative_integer/"+name+"/rejected", 1)
+			}
+		}
+	}
 	sig, err := internalecdsa.ASN1Decode(bytes.Clone(k.raw))
-	if (err == nil) != wantDER {
-		fail("ASN1Decode err=%v, but strict DER SEQUENCE{INTEGER,INTEGER} reference accepts=%v (sigref.ParseDER err=%v)", err, wantDER, perr)
+	if err != nil {
+		sig = &internalecdsa.Signature{}
 	}
-	if err == nil && !sameRS(sig.R, sig.S, wr, ws) {
-		fail("ASN1Decode gives r=%v s=%v, reference r=%v s=%v", sig.R, sig.S, wr, ws)
-	}
+	derDecision("ASN1Decode", err, sig.R, sig.S)
 	ssig, serr := sigsubtle.DecodeECDSASignature(bytes.Clone(k.raw), "DER")
-	if (serr == nil) != wantDER {
-		fail("subtle.DecodeECDSASignature(DER) err=%v, but strict DER reference accepts=%v", serr, wantDER)
+	if serr != nil {
+		ssig = &sigsubtle.ECDSASignature{}
 	}
-	if serr == nil && !sameRS(ssig.R, ssig.S, wr, ws) {
-		fail("subtle.DecodeECDSASignature(DER) gives r=%v s=%v, reference r=%v s=%v", ssig.R, ssig.S, wr, ws)
-	}
+	derDecision("subtle.DecodeECDSASignature(DER)", serr, ssig.R, ssig.S)
 	if wantDER {
-		accepted = true
 		st.derAcc++
-		if wr.Sign() < 0 || ws.Sign() < 0 {
+		if neg {
 			st.derNeg++
+			accepted = accepted || err == nil || serr == nil
 		} else {
+			accepted = true
 			// Encode(Decode(b)) == b on both API levels
 			if e, err := internalecdsa.ASN1Encode(sig); err != nil || !bytes.Equal(e, k.raw) {
 				fail("ASN1Encode(ASN1Decode(b)) = %x, err=%v", e, err)
@@ -630,7 +651,7 @@ func decodeAll(t *rapid.T, ctx string, k cand, st *encStats) {
 	}
 
 	// --- IEEE P1363 with a curve: exactly 2*size bytes
-	var anyR, anyS *big.Int
+	wantAny := false // the length is the width of one of the supported curves
 	for _, cu := range encCurves {
 		wr, ws, werr := sigref.ParseP1363(k.raw, cu.size)
 		sig, err := internalecdsa.IEEEP1363DecodeWithCurve(bytes.Clone(k.raw), cu.goName)
@@ -649,10 +670,12 @@ func decodeAll(t *rapid.T, ctx string, k cand, st *encStats) {
 		}
 		st.curveAcc++
 		accepted = true
-		anyR, anyS = wr, ws
+		wantAny = true
 	}
-	// --- IEEE P1363 without a curve: the width of one of the supported curves
-	wantAny := anyR != nil
+	// --- IEEE P1363 without a curve.  C03 rejects "wrong-length fixed-size signatures", but without a
+	// curve no length is the wrong one ("the caller should validate the size of the encoded bytes
+	// w.r.t. the curve size"): which lengths these helpers take is not decided here.  Asserted: no
+	// panic, and what is accepted is read as r || s of equal width; the decisions are counted.
 	for _, dec := range []struct {
 		name string
 		f    func([]byte) (*big.Int, *big.Int, error)
@@ -673,11 +696,23 @@ func decodeAll(t *rapid.T, ctx string, k cand, st *encStats) {
 		}},
 	} {
 		r, s, err := dec.f(bytes.Clone(k.raw))
-		if (err == nil) != wantAny {
-			fail("%s err=%v, but the strict reference accepts the length for one of P-256/P-384/P-521 = %v", dec.name, err, wantAny)
-		}
-		if err == nil && !sameRS(r, s, anyR, anyS) {
-			fail("%s gives r=%v s=%v, reference r=%v s=%v", dec.name, r, s, anyR, anyS)
+		switch {
+		case err != nil && wantAny:
+			evid.Add("p1363_nocurve/"+dec.name+"/supported_width_rejected", 1)
+		case err != nil:
+			evid.Add("p1363_nocurve/"+dec.name+"/other_width_rejected", 1)
+		case len(k.raw) == 0 || len(k.raw)%2 != 0:
+			evid.Add("p1363_nocurve/"+dec.name+"/accepted_without_a_middle", 1) // no r || s reading exists
+		default:
+			hr, hs, herr := sigref.ParseP1363(k.raw, len(k.raw)/2)
+			if herr != nil || !sameRS(r, s, hr, hs) {
+				fail("%s accepts the %d bytes and gives r=%v s=%v; the two halves are r=%v s=%v (reference err=%v)", dec.name, len(k.raw), r, s, hr, hs, herr)
+			}
+			if wantAny {
+				evid.Add("p1363_nocurve/"+dec.name+"/supported_width_accepted_same_values", 1)
+			} else {
+				evid.Add("p1363_nocurve/"+dec.name+"/other_even_width_accepted_same_values", 1)
+			}
 		}
 	}
 	if wantAny {
@@ -685,9 +720,9 @@ func decodeAll(t *rapid.T, ctx string, k cand, st *encStats) {
 	} else {
 		st.anyRej++
 	}
-	// --- an encoding name outside {DER, IEEE_P1363} is refused
+	// --- an encoding name outside {DER, IEEE_P1363}: not C03's subject; no panic, decision counted
 	if _, err := sigsubtle.DecodeECDSASignature(bytes.Clone(k.raw), "BER"); err == nil {
-		fail("subtle.DecodeECDSASignature accepts the unsupported encoding name \"BER\"")
+		evid.Add("observed_not_asserted/unsupported_encoding_name_BER_accepted", 1)
 	}
 	if accepted {
 		st.famAcc[family(k.kind)]++
@@ -696,8 +731,10 @@ func decodeAll(t *rapid.T, ctx string, k cand, st *encStats) {
 	}
 }
 
-// TestSubtleSigDecode: every decoder of the encoding helpers accepts a byte string iff the strict
-// reference does, with the same (r, s); what it accepts re-encodes to the same bytes.
+// TestSubtleSigDecode: the decoders of the encoding helpers reject what the strict reference
+// rejects (DER; fixed width with a curve), accept the canonical encodings, always with the
+// reference's (r, s); what they accept re-encodes to the same bytes.  See the file comment for the
+// kinds whose decision is only counted.
 func TestSubtleSigDecode(t *testing.T) {
 	rapid.Check(t, func(rt *rapid.T) {
 		detrand.Seed(rapid.Uint64().Draw(rt, "entropy"))
@@ -727,7 +764,7 @@ func TestSubtleSigDecode(t *testing.T) {
 		}
 		evid.Add("decode_candidates", int64(len(cands)))
 		evid.Add("der_accept_both", int64(st.derAcc))
-		evid.Add("der_accept_both_negative_integer", int64(st.derNeg))
+		evid.Add("der_strict_with_negative_integer_candidates", int64(st.derNeg))
 		evid.Add("der_reject_both", int64(st.derRej))
 		evid.Add("p1363_curve_accept_both", int64(st.curveAcc))
 		evid.Add("p1363_curve_reject_both", int64(st.curveRej))
@@ -764,8 +801,8 @@ func guarded(t *rapid.T, ctx, name string, f func() ([]byte, error)) (out []byte
 }
 
 // TestSubtleSigEncode: Encode(r, s) is the reference's canonical encoding (the curve's width for
-// IEEE P1363, an error when a value does not fit) and Decode(Encode(r, s)) == (r, s), on both API
-// levels; unsupported curve and encoding names are refused.
+// IEEE P1363 when the values fit) and Decode(Encode(r, s)) == (r, s), on both API levels; values
+// that do not fit and unsupported curve / encoding names must not panic (decisions counted).
 func TestSubtleSigEncode(t *testing.T) {
 	rapid.Check(t, func(rt *rapid.T) {
 		detrand.Seed(rapid.Uint64().Draw(rt, "entropy"))
@@ -817,8 +854,12 @@ func TestSubtleSigEncode(t *testing.T) {
 			} {
 				got, err := guarded(rt, ctx, e.name, e.f)
 				if !fits {
+					// a value wider than the curve has no fixed-width encoding and is never a value of
+					// Sign: C03 says nothing about it.  No panic (guarded); the decision is counted.
 					if err == nil {
-						rt.Fatalf("%s\n %s(%s) returns %x for a value wider than %d bytes; want an error", ctx, e.name, c2.goName, got, c2.size)
+						evid.Add("observed_not_asserted/"+e.name+"_too_wide_value_encoded", 1)
+					} else {
+						evid.Add("encode_p1363_too_wide/"+e.name+"/refused", 1)
 					}
 					continue
 				}
@@ -843,32 +884,27 @@ func TestSubtleSigEncode(t *testing.T) {
 			}
 		}
 
-		// --- names outside the supported sets: an error, no panic
-		badCurve := rapid.SampledFrom([]string{"", "NIST_P256", "P-224", "secp256r1", "p-256", "P-256 ", "P256", "Curve25519", "P-5211"}).Draw(rt, "bad_curve")
-		refused(rt, fmt.Sprintf("%s IEEEP1363Encode curve name %q", ctx, badCurve), func() error {
-			_, err := internalecdsa.IEEEP1363Encode(isig, badCurve)
-			return err
-		})
-		refused(rt, fmt.Sprintf("%s EncodeECDSASignature(IEEE_P1363) curve name %q", ctx, badCurve), func() error {
-			_, err := ssig.EncodeECDSASignature("IEEE_P1363", badCurve)
-			return err
-		})
-		refused(rt, fmt.Sprintf("%s IEEEP1363DecodeWithCurve curve name %q", ctx, badCurve), func() error {
-			_, err := internalecdsa.IEEEP1363DecodeWithCurve(make([]byte, 2*cu.size), badCurve)
-			return err
-		})
-		badEnc := rapid.SampledFrom([]string{"", "BER", "der", "IEEE_P1363 ", "IEEE-P1363", "P1363", "ASN1"}).Draw(rt, "bad_encoding")
-		refused(rt, fmt.Sprintf("%s EncodeECDSASignature encoding %q", ctx, badEnc), func() error {
-			_, err := ssig.EncodeECDSASignature(badEnc, cu.goName)
-			return err
-		})
-		refused(rt, fmt.Sprintf("%s DecodeECDSASignature encoding %q", ctx, badEnc), func() error {
-			_, err := sigsubtle.DecodeECDSASignature(bytes.Clone(wantDER), badEnc)
-			return err
-		})
+		// --- names outside the supported sets: not C03's subject.  No panic; refusals are counted
+		badCurve := gen.Pick(rt, "bad_curve", []string{"", "NIST_P256", "P-224", "secp256r1", "p-256", "P-256 ", "P256", "Curve25519", "P-5211"})
+		badEnc := gen.Pick(rt, "bad_encoding", []string{"", "BER", "der", "IEEE_P1363 ", "IEEE-P1363", "P1363", "ASN1"})
+		for _, u := range []struct {
+			name string
+			f    func() error
+		}{
+			{"IEEEP1363Encode/curve", func() error { _, err := internalecdsa.IEEEP1363Encode(isig, badCurve); return err }},
+			{"EncodeECDSASignature/curve", func() error { _, err := ssig.EncodeECDSASignature("IEEE_P1363", badCurve); return err }},
+			{"IEEEP1363DecodeWithCurve/curve", func() error {
+				_, err := internalecdsa.IEEEP1363DecodeWithCurve(make([]byte, 2*cu.size), badCurve)
+				return err
+			}},
+			{"EncodeECDSASignature/encoding", func() error { _, err := ssig.EncodeECDSASignature(badEnc, cu.goName); return err }},
+			{"DecodeECDSASignature/encoding", func() error { _, err := sigsubtle.DecodeECDSASignature(bytes.Clone(wantDER), badEnc); return err }},
+		} {
+			refusedOrCounted(rt, "unsupported-name/"+u.name, fmt.Sprintf("%s curve name %q encoding name %q", ctx, badCurve, badEnc), u.f)
+		}
 
 		evid.Add("encode_p1363_fits", int64(nfit))
-		evid.Add("encode_p1363_too_wide_refused", int64(len(encCurves)-nfit))
+		evid.Add("encode_p1363_too_wide", int64(len(encCurves)-nfit))
 		evid.Add("encode_value_kind/"+rk, 1)
 		evid.Add("encode_value_kind/"+sk, 1)
 		fit := []string{"wider-than-every-curve", "fits-P521-only", "fits-P384-and-P521", "fits-every-curve"}[nfit]
